@@ -317,7 +317,8 @@ struct Lock
       if (x.sid != forSid) return "unexpected-session";
     std::string shape;
     for (const auto& x : e) shape.push_back(x.kind);
-    if (shape.empty()) return sup ? "suppressed" : "nothing";
+    (void)sup;
+    if (shape.empty()) return "silent";
     if (shape == "S") return "respond 0 " + showWire(e[0].data);
     if (shape == "SX") return "respond 1 " + showWire(e[0].data);
     if (shape == "F") return "sendfailed 0";
@@ -575,7 +576,7 @@ int main()
         (void)want;
         if (!idle) return "pool-not-idle";
         std::string late = L.outcome(sid);
-        if (late != "nothing") return "late-commands " + late;
+        if (late != "silent") return "late-commands " + late;
         return o + " queued=" + std::to_string(queued);
       }
       // ---------------- end-to-end
